@@ -136,7 +136,7 @@ def multi_ops(case, mdb1, mdb2, rng):
     le16 = ac.le16
     bearers = case['bearers']
     plain = next((a[0] for a in mdb1 if a[2] == 1 and a[5] == 0 and bytes(a[1]) == b'\x03\x28'), mdb1[0][0])
-    targets = [(a1, a2) for a1, a2 in zip(mdb1, mdb2) if bytes(a1[1]) not in (b'\x00\x28', b'\x03\x28')][:4]
+    targets = [(a1, a2) for a1, a2 in zip(mdb1, mdb2) if bytes(a1[1]) not in (b'\x00\x28', b'\x03\x28')][:3]
     ops = []
 
     def reads(k, a1, a2, full):
@@ -451,7 +451,7 @@ def run(ctx):
     rng = ctx.rng
     cases = load_corpus()
     base = rng.below(32)
-    for k in range(ctx.n(9, 192)):
+    for k in range(ctx.n(7, 192)):
         cases.append(gen_pair(rng, base + k, 'strict'))
     for k in range(ctx.n(2, 32)):
         cases.append(gen_pair(rng, base + 5 * k, 'd11a'))
@@ -461,7 +461,7 @@ def run(ctx):
         for j in range(8):
             cases.append(gen_pair(rng, base + j + rep, 'strict', perms=[(j * 32 + i) for i in range(32)]))
     # several bearers on one server: authorised and unauthorised peers interleaved on the same attributes
-    for k in range(ctx.n(4, 48)):
+    for k in range(ctx.n(3, 48)):
         cases.append(gen_multi(rng, base + k))
     for i in range(0, len(cases), 60):
         check_cases(ctx, cases[i:i + 60])
